@@ -4,7 +4,8 @@
 (* Values: [t, l, s, num, es] with t in nil | bool | int | flt | str |     *)
 (* list | map; int carries its 8 bytes, flt its IEEE bytes (opaque), a     *)
 (* string its text and, in num, the number it denotes when it is a plain   *)
-(* decimal numeral ([k |-> "int"/"flt"/"none", l |-> bytes]); containers   *)
+(* decimal numeral ([k |-> "int"/"flt"/"big"/"none", l |-> bytes]; "big" is *)
+(* an integer numeral outside int64, l its float64 rounding); containers   *)
 (* their elements (maps as key-sorted lists of <<key, value>> pairs).      *)
 (* float64 comparison itself is a primitive: the recorded observation      *)
 (* carries feq = (float64(a) == float64(b)) computed natively, and nan.    *)
@@ -42,6 +43,7 @@ Verdict(a, b, feq) ==
     [] IsNumeric(a) /\ IsNumeric(b) ->
          LET x == Den(a)  y == Den(b) IN
          IF x.k = "int" /\ y.k = "int" THEN (IF x.l = y.l THEN "yes" ELSE "no")
+         ELSE IF {x.k, y.k} = {"int", "big"} THEN "no"                             \* an integer numeral outside int64 denotes no int64
          ELSE IF feq THEN "yes" ELSE "no"                                         \* carried out in float64
     [] OTHER -> "open"
 
